@@ -29,7 +29,11 @@ def r1(ctx):
             a = S(b.call_args(s)[0])
             ctx.check('%s::parse|%s|bounded-reader' % (nm, site_desc(b, s)), a == 'AsyncReadExt::take(reader, MAX_MESSAGE_SIZE=4096)', 'NtsRecord::parse reads from `%s`' % a, s.where(), sample=a)
         takes = b.calls(r'AsyncReadExt::take$')
-        ctx.check('%s::parse|one-take' % nm, len(takes) == 1 and not b.can_reach(calls[0].bb, takes[0].bb) or len(takes) == 1, 'take() sites: %d' % len(takes), sample=len(takes))
+        ctx.check('%s::parse|one-take' % nm, len(takes) == 1, 'take() sites: %d' % len(takes), sample=len(takes))
+        # the limit is a budget for the whole message: the limited reader is created once, before the record loop (a take()
+        # that can be reached again after a record was parsed starts a fresh 4096-byte budget per record)
+        inloop = [site_desc(b, c) for c in calls for t in takes if b.can_reach(c.bb, t.bb)]
+        ctx.check('%s::parse|take-before-record-loop' % nm, not inloop, 'take(MAX_MESSAGE_SIZE) is re-executed after %s: the 4096-byte limit applies per record, not per message' % inloop, takes[0].where() if takes else None, sample=len(inloop))
         # no other read from the raw reader
         raw = [s for s in b.calls(r'AsyncReadExt::(read|read_exact|read_u16|read_to_end|read_buf)$')]
         ctx.check('%s::parse|no-raw-reads' % nm, not raw, '%s::parse reads directly from the connection' % nm, sample=len(raw))
